@@ -103,6 +103,9 @@ package fiber
 //@   ensures detection-folded: !c.app.config.CaseSensitive && c.app.config.StrictRouting ==> str(c.detectionPath) == lower(str(c.path))
 //@   ensures detection-trimmed: !c.app.config.StrictRouting ==> trimmedOrSame(foldCase(str(c.path), c.app.config.CaseSensitive), str(c.detectionPath))
 //@   ensures hash-from-detection: c.treePathHash == hash3(str(c.detectionPath))
+// what the matcher relies on when it cuts parameter values out of path at offsets computed on detectionPath
+// (assumed as paths-wf by (*App).next, required by getMatch): never longer, byte-wise equal up to ASCII case
+//@   ensures [C05 C07 C02] detection-folds-path: len(c.detectionPath) <= len(c.path) && forall(k, 0, len(c.detectionPath), c.detectionPath[k] == c.path[k] || c.detectionPath[k] == lowerb(c.path[k]))
 //@   ensures buffers-allocated: (arr(c.path) == 0 || allocated(arr(c.path))) && (arr(c.detectionPath) == 0 || allocated(arr(c.detectionPath)))
 //@   ensures wf: arr(c.path) == 0 || arr(c.path) != arr(c.detectionPath)
 
